@@ -9,6 +9,7 @@ import (
 	"io"
 	"math/rand"
 	"os"
+	"runtime/debug"
 	"sort"
 	"strings"
 	"sync"
@@ -62,6 +63,12 @@ func (c *Ctx) fail(key, input, expected, got, detail string) {
 
 // Run dispatches on the property id.
 func Run(prop, tier string, seed int64) (*report.Report, error) {
+	// the engine reads values through unchecked casts; on a tree whose checks
+	// are broken a wrongly typed read faults.  Turn such faults into panics
+	// (caught by guard and reported) instead of losing the whole report.
+	debug.SetPanicOnFault(true)
+	// many short-lived engines and environments: collect less often
+	debug.SetGCPercent(800)
 	c := newCtx(prop, tier, seed)
 	switch prop {
 	case "C07":
